@@ -457,7 +457,17 @@ def b_decode(b, encoding='utf-8', errors='strict'):
                 out.append(_mkchar((t - 0xE0) * 4096 + (c1 - 0x80) * 64 + (c2 - 0x80), [(0x800, 0xFFFF)]))
                 i += 3
             elif dec(z3.And(t >= 0xF0, t <= 0xF4)):
-                raise Unsupported("4-byte UTF-8 sequence from symbolic bytes")
+                c1, c2, c3 = cont(i + 1), cont(i + 2), cont(i + 3)
+                if c1 is None or not is_cont(c1):
+                    raise UnicodeDecodeError('utf-8', b'?', 0, 1, 'invalid continuation byte')
+                if dec(z3.And(t == 0xF0, c1 < 0x90)) or dec(z3.And(t == 0xF4, c1 > 0x8F)):
+                    raise UnicodeDecodeError('utf-8', b'?', 0, 1, 'invalid continuation byte')
+                if c2 is None or not is_cont(c2):
+                    raise UnicodeDecodeError('utf-8', b'?', 0, 1, 'invalid continuation byte')
+                if c3 is None or not is_cont(c3):
+                    raise UnicodeDecodeError('utf-8', b'?', 0, 1, 'invalid continuation byte')
+                out.append(_mkchar((t - 0xF0) * 262144 + (c1 - 0x80) * 4096 + (c2 - 0x80) * 64 + (c3 - 0x80), [(0x10000, 0x10FFFF)]))
+                i += 4
             else:
                 raise UnicodeDecodeError('utf-8', b'?', 0, 1, 'invalid start byte')
         else:
